@@ -5,7 +5,7 @@
 From Coq Require Import List NArith ZArith Arith Bool.
 From Pika Require Import Base.Conc Base.Agent Gen.GenBarrier Gen.GenOnce
   Model.Latch Model.BarrierTree Model.Event Model.Once
-  Proofs.LatchProofs Proofs.BarrierTreeProofs Proofs.BarrierProofs Proofs.EventProofs Proofs.OnceProofs.
+  Proofs.LatchProofs Proofs.BarrierTreeProofs Proofs.BarrierProofs Proofs.EventProofs Proofs.OnceProofs Proofs.OnceLiveProofs.
 Import ListNotations.
 
 (* ------------------------------------------------------------------ latch *)
@@ -154,11 +154,20 @@ Theorem C09_once_others_wait : forall sched ncalls,
 Proof. exact once_others_wait. Qed.
 Print Assumptions C09_once_others_wait.
 
-(* PARTIAL.  Full statement (not proved): in every state in which no thread can step, every
-   caller has returned or rethrown.  Proved: the thrower stores the value the CAS expects; the
-   status is `running` only while a runner is between its CAS and its store;
-   a caller whose CAS finds that value becomes the next runner. *)
-Theorem C09_once_retry_after_throw_partial : forall sched ncalls,
+(* retrying after a throw: when no thread can take a step, every call_once has returned or
+   rethrown — no caller is left blocked (or about to block) in the flag's event, whatever the number
+   of callers, the pattern of throwing runs and the stale resumes *)
+Theorem C09_once_retry_after_throw : forall sched ncalls,
+  let c := o_run sched ncalls in
+  (forall t, o_enabled (fst c) t (snd c t) = false) ->
+  forall t, opc (snd c t) = None /\ calls (snd c t) = 0.
+Proof. exact once_all_return. Qed.
+Print Assumptions C09_once_retry_after_throw.
+
+(* how the flag is handed back: the thrower stores the value the CAS expects; the status is
+   `running` only while a runner is between its CAS and its store; a caller whose CAS finds that
+   value becomes the next runner *)
+Theorem C09_once_handback_after_throw : forall sched ncalls,
   let c := o_run sched ncalls in
   once_after_throw = once_cas_expected /\
   (status (fst c) = once_running ->
@@ -168,8 +177,8 @@ Theorem C09_once_retry_after_throw_partial : forall sched ncalls,
   (forall t o, opc (snd c t) = Some OC1 -> status (fst c) = once_cas_expected ->
      orun (fst (o_tstep (OONorm o) t (fst c) (snd c t))) = Some t /\
      opc (snd (o_tstep (OONorm o) t (fst c) (snd c t))) = Some OR1).
-Proof. exact once_retry_after_throw_partial. Qed.
-Print Assumptions C09_once_retry_after_throw_partial.
+Proof. exact once_handback_after_throw. Qed.
+Print Assumptions C09_once_handback_after_throw.
 
 (* ------------------------------------------------------------------ non-vacuity *)
 Fixpoint rr {O} (o : O) (T rounds : nat) : list (nat * O) :=
